@@ -24,6 +24,9 @@ type Thread struct {
 	exited  chan struct{}
 	done    bool
 	daemon  bool
+	parked  bool // waiting in fail() to be killed
+	prevEn  bool // was enabled at the previous scheduling decision (a thread that is enabled now and was not has just been readied)
+	woke    bool // a voluntary yield (sleep / poll) of this thread ended because another thread stepped; cleared when it runs
 	work    bool // branched on in the explorer's workload-thread phase: harness threads and the library goroutines named in WorkDaemons
 	killed  bool
 	yielded bool
@@ -106,7 +109,9 @@ type Options struct {
 }
 
 // Policy selects the default order among the threads other than the running one (a choice list is only meaningful
-// under the policy it was recorded with): 0 = fewest voluntary yields first; 1 = library goroutines first, then 0.
+// under the policy it was recorded with): 0 = fewest voluntary yields first; 1 = library goroutines first, then 0;
+// 2 = a thread whose sleep / poll has just ended runs first (sleeps last one step), then the running thread, then
+// goroutines it has just readied or spawned (Go's runnext), then thread order.
 var Policy int
 
 var E *Exec // nil => free-running mode
@@ -168,8 +173,21 @@ func AtExit(f func()) {
 func (e *Exec) killAll() {
 	for i := 0; i < len(e.threads); i++ { // threads may still be appended? no: killed threads do not spawn
 		t := e.threads[i]
-		if t.done || t.ID == 0 {
+		if t.ID == 0 {
 			continue
+		}
+		if t.done {
+			// a finished thread's goroutine has normally returned; one that reported a failure from its exit
+			// scheduling point (pruned execution) is parked in fail() and must be released as well
+			select {
+			case <-t.exited:
+				continue
+			default:
+			}
+			if !t.parked {
+				<-t.exited
+				continue
+			}
 		}
 		t.killed = true
 		e.cur = t
@@ -199,6 +217,25 @@ func (e *Exec) enabledList() []*Thread {
 	}
 	// fair default order: among the other threads, those that yielded (polled) less often come first, so that
 	// two polling threads cannot starve a runnable one under the default schedule
+	if e.Policy == 2 {
+		// policy 2: a sleep / poll lasts exactly one step of another thread: a thread whose yield has just ended runs
+		// next, even before the running thread (timers that fire early)
+		// Among the other threads a goroutine that has just been readied (woken by a channel operation / unlock of
+		// the running thread, or newly spawned) runs first, as with the Go runtime's runnext slot.
+		rank := func(t *Thread) int {
+			switch {
+			case t.woke:
+				return 0
+			case t == c:
+				return 1
+			case !t.prevEn:
+				return 2
+			}
+			return 3
+		}
+		sort.SliceStable(en, func(i, j int) bool { return rank(en[i]) < rank(en[j]) })
+		return en
+	}
 	sort.SliceStable(en[k:], func(i, j int) bool {
 		a, b := en[k+i], en[k+j]
 		if e.Policy == 1 && a.daemon != b.daemon {
@@ -293,15 +330,25 @@ func (e *Exec) schedule(t *Thread, voluntary bool) {
 		}
 	}
 	next := en[ch]
+	for _, x := range e.threads {
+		x.prevEn = false
+	}
+	for _, x := range en {
+		x.prevEn = true
+	}
 	if keepTrace {
 		e.Trace = append(e.Trace, fmt.Sprintf("T%d:%s", next.ID, next.What))
 	}
 	// a step by some thread re-enables yielded threads (they poll again)
 	for _, x := range e.threads {
 		if x != next {
+			if x.yielded {
+				x.woke = true
+			}
 			x.yielded = false
 		}
 	}
+	next.woke = false
 	if next != t {
 		e.cur = next
 		next.wake <- struct{}{}
@@ -328,6 +375,7 @@ func (e *Exec) fail(t *Thread, msg string) {
 	// hand control back to thread 0 so that it unwinds
 	m := e.threads[0]
 	e.cur = m
+	t.parked = true
 	m.wake <- struct{}{}
 	<-t.wake // woken again only to be killed
 	runtime.Goexit()
